@@ -12,13 +12,20 @@
 using namespace vh;
 
 struct PI { const char *addr; char type; double mn, mx; };
-static const PI PARAMS[] = {{"/pa", 'i', 0, 127}, {"/pb", 'f', -1, 3}, {"/pc", 'i', -64, 64}, {"/pd", 'f', 20, 2000}};
+// all parameters of the application; every history uses up to four of them (PARAMS)
+static const PI ALL_PARAMS[] = {{"/pa", 'i', 0, 127}, {"/pb", 'f', -1, 3}, {"/pc", 'i', -64, 64}, {"/pd", 'f', 20, 2000},
+                                {"/pe", 'i', -64, 63}, {"/pf", 'i', 1, 128}, {"/pg", 'i', 0, 126}, {"/ph", 'i', 0, 128}};   // 128 steps wide but not 0..127; neighbours of 0..127
+static PI PARAMS[4];
 static void nop(const char *, rtosc::RtData &) {}
 static const rtosc::Ports ports = {
     {"pa::i", rMap(min, 0) rMap(max, 127), 0, nop},
     {"pb::f", rMap(min, -1) rMap(max, 3), 0, nop},
     {"pc::i", rMap(min, -64) rMap(max, 64), 0, nop},
     {"pd::f", rMap(min, 20) rMap(max, 2000), 0, nop},
+    {"pe::i", rMap(min, -64) rMap(max, 63), 0, nop},
+    {"pf::i", rMap(min, 1) rMap(max, 128), 0, nop},
+    {"pg::i", rMap(min, 0) rMap(max, 126), 0, nop},
+    {"ph::i", rMap(min, 0) rMap(max, 128), 0, nop},
 };
 
 // ---------------------------------------------------------------- model
@@ -80,8 +87,11 @@ int main(int argc, char **argv)
         rt.setFrontendCb([&](const char *msg) { to_nrt.push_back(std::string(msg, rtosc_message_length(msg, 1024))); });
         rt.setBackendCb([&](const char *msg) { g_backend.push_back(std::string(msg, rtosc_message_length(msg, 1024))); });
         int naddr = (int)r.range(2, 4), nctl = (int)r.range(2, 6);
+        { std::vector<int> idx = {0, 1, 2, 3, 4, 5, 6, 7}; for(int i = 0; i < 4; ++i) { size_t k = i + r.below(idx.size() - i); std::swap(idx[i], idx[k]); PARAMS[i] = ALL_PARAMS[idx[i]]; if(i < naddr && idx[i] >= 4) count("params.int_range_next_to_0_127"); } }
         int ops = (int)r.range(1, 30);
         g_hist = fmt("addresses=%d controllers=%d:", naddr, nctl);
+        for(int i = 0; i < naddr; ++i) g_hist += fmt(" %s:%c[%g,%g]", PARAMS[i].addr, PARAMS[i].type, PARAMS[i].mn, PARAMS[i].mx);
+        g_hist += " ::";
         bool eager = r.chance(0.5);     // deliver wire messages promptly (else: delayed, interleaved with CCs)
         // scripted prefix (40% of the cases): learn a few bindings quickly, coarse and fine, then go random
         struct Forced { int k, ai, coarse, id, val; };
